@@ -84,18 +84,21 @@ func LengthEncodedInt(data []byte) (num uint64, isNull bool, n int, err error) {
 func LengthEncodedString(data []byte) ([]byte, int, error) {
 	// Get length
 	num, isNull, n, err := LengthEncodedInt(data)
-	// NULL values are encoded with special length values. Represent them with "nil" in Go.
-	if isNull {
+	if err != nil {
 		return nil, n, err
 	}
-
-	n += int(num)
-
-	// Check data length
-	if len(data) >= n {
-		return data[n-int(num) : n], n, nil
+	// NULL values are encoded with special length values. Represent them with "nil" in Go.
+	if isNull {
+		return nil, n, nil
 	}
-	return nil, n, io.EOF
+
+	// Check data length. Compare in the unsigned domain: the length is a 64-bit value chosen by the
+	// other side, converted to int it can turn negative and pass a signed comparison.
+	if num > uint64(len(data)-n) {
+		return nil, n, io.EOF
+	}
+	end := n + int(num)
+	return data[n:end], end, nil
 }
 
 // SkipLengthEncodedString https://dev.mysql.com/doc/internals/en/string.html#packet-Protocol::LengthEncodedString
@@ -108,12 +111,10 @@ func SkipLengthEncodedString(data []byte) (int, error) {
 		return n, nil
 	}
 
-	n += int(num)
-
-	if len(data) >= n {
-		return n, nil
+	if num > uint64(len(data)-n) {
+		return n, io.EOF
 	}
-	return n, io.EOF
+	return n + int(num), nil
 }
 
 // PutLengthEncodedInt https://dev.mysql.com/doc/internals/en/integer.html#packet-Protocol::LengthEncodedInteger
